@@ -530,6 +530,65 @@ def rule_persist(P):
     return r
 
 
+def rule_clock(P):
+    r = Rule("C01-clock", "K6/K3", "update_time_cache takes a fresh reading: the cache is invalidated before gettime; gettime uses the cache only when set; the loop clears it before the wait", floor=5)
+    f = P.fn("update_time_cache")
+    base = ["var", f.params[0][0], "param"]
+    kc = nkey(["fld", ["fld", base, "event_base.tv_cache", "->"], "timeval.tv_sec", "."])
+    kf = nkey(["fld", base, "event_base.flags", "->"])
+    g = list(f.calls("gettime"))
+    if len(g) != 1:
+        r.brk("update_time_cache: expected one gettime")
+        return r
+    for nocache in (0, 1):
+        for cached in (0, 1234):
+            env = {base[1]: 1, kc: cached, kf: 0x08 if nocache else 0}
+            for o in irun_all(f, (f.entry, 0), env, lambda el: el is g[0], P, lambda el, e_: None):
+                if o.kind == "unknown":
+                    r.brk("update_time_cache: %s" % o.why)
+                    return r
+                reached = o.kind == "stop"
+                at = o.env.get(kc)
+                r.inst(("utc", nocache, cached), {"NO_CACHE_TIME": bool(nocache), "cached_before": cached, "reads_clock": reached, "cache_sec_at_that_point": at})
+                if nocache and (reached or at != 0):
+                    r.bad("K6:update_time_cache:no-cache-flag", "%s:%d" % (f.file, f.line), f.name, "with EVENT_BASE_FLAG_NO_CACHE_TIME the cache is not left cleared")
+                if not nocache and (not reached or at != 0):
+                    r.bad("K6:update_time_cache:stale-cache", g[0].where(), f.name,
+                          "the time cache still holds %s when gettime is called: gettime returns the cached value, so the 'updated' time is the old one "
+                          "(timers and dispatch deadlines are judged against a frozen clock)" % at)
+    h = P.fn("gettime")
+    hb = ["var", h.params[0][0], "param"]
+    hk = nkey(["fld", ["fld", hb, "event_base.tv_cache", "->"], "timeval.tv_sec", "."])
+    mono = [el for el in h.calls() if callee_name(el.e) == "evutil_gettime_monotonic_"]
+    if not mono:
+        r.brk("gettime: no monotonic clock read")
+        return r
+    for cached in (0, 77):
+        env = {hb[1]: 1, hk: cached, nkey(["fld", hb, "event_base.th_base_lock", "->"]): 0}
+        for o in irun_all(h, (h.entry, 0), env, lambda el: el in mono, P, lambda el, e_: None):
+            if o.kind == "exit" and o.why == "noreturn":
+                continue
+            reads = o.kind == "stop"
+            r.inst(("gettime", cached), {"cache_sec": cached, "reads_monotonic_clock": reads})
+            if reads != (cached == 0):
+                r.bad("K6:gettime:cache-use", "%s:%d" % (h.file, h.line), h.name, "with tv_cache.tv_sec=%d gettime %s the clock" % (cached, "reads" if reads else "does not read"))
+    # the loop clears the cache before the backend wait (so the post-wait update is the first reading after the sleep)
+    Ls = [x for x in P.fns_in("event.c") if any(True for _ in x.calls(slot="eventop.dispatch"))]
+    if len(Ls) == 1:
+        L_ = Ls[0]
+        disp = list(L_.calls(slot="eventop.dispatch"))[0]
+        clr = list(L_.calls("clear_time_cache"))
+        tn = list(L_.calls("timeout_next"))
+        ok = bool(clr) and L_.path_avoiding((L_.entry, -1), lambda x: x is disp, lambda x: x in clr) is None
+        r.inst("loop", {"clear_before_wait": ok})
+        if not ok:
+            r.bad("K3:%s:cache-not-cleared-before-wait" % L_.name, disp.where(), L_.name, "the backend wait can be entered with a time cache that was not cleared")
+    return r
+
+
+from ..interp import run_all as irun_all
+
+
 def run(ctx, config):
     P = ctx.prog(UNITS, config)
-    return [rule_expire(P), rule_wait(P), rule_who(P), rule_fifo(P), rule_heap(P), rule_sched(P), rule_persist(P)]
+    return [rule_expire(P), rule_wait(P), rule_who(P), rule_fifo(P), rule_heap(P), rule_sched(P), rule_persist(P), rule_clock(P)]
